@@ -481,7 +481,8 @@ def unit_sensor(stage, tname):
     kname, adr_label = STAGE_KERNEL[stage]
     k = getattr(sensor, kname)
     ctx.encode(k, sensor._write_scalar, sensor._write_vector)
-    ctx.bound(unroll=2, shape_cap=6, note="one generic thread; sensor type fixed, all other inputs symbolic; exact reals")
+    unroll, cap = (4, 10) if ctx.tier == "thorough" else (2, 6)
+    ctx.bound(unroll=unroll, shape_cap=cap, note="one generic thread; sensor type fixed, all other inputs symbolic; exact reals")
     ctx.assume("own accesses in bounds (C17)", "object / reference types in {body, xbody, geom, site, camera} (MuJoCo compiler)", "the object / reference ids of the sensor exist (the reference model's own reads are inside the arrays, under the object-type condition that selects them)")
     ikw = {}
     if tname == "FRAMEQUAT":
@@ -497,9 +498,9 @@ def unit_sensor(stage, tname):
       ikw = {"summaries": summ}
       QL["mulq"], QL["conj"] = L.mulq, conj_uf
       ctx.assume("FRAMEQUAT: mul_quat / quat_inv are shared uninterpreted functions (leaf lemmas: C01 unit leaf)")
-    kt = lib.kernel_thread(k, scalars={"sensor_type": const_int_array("sensor_type", int(stype))}, unroll=2, interp_kw=ikw)
+    kt = lib.kernel_thread(k, scalars={"sensor_type": const_int_array("sensor_type", int(stype))}, unroll=unroll, cap=cap, interp_kw=ikw)
     # the same thread over the same symbolic arrays with the cutoff switched off: exposes the value handed to the write helper
-    kt0 = lib.kernel_thread(k, scalars={"sensor_type": const_int_array("sensor_type", int(stype)), "sensor_cutoff": const_real_array("sensor_cutoff", 0.0)}, unroll=2, interp_kw=ikw)
+    kt0 = lib.kernel_thread(k, scalars={"sensor_type": const_int_array("sensor_type", int(stype)), "sensor_cutoff": const_real_array("sensor_cutoff", 0.0)}, unroll=unroll, cap=cap, interp_kw=ikw)
     w, tidx = kt.tid
     a = KA(kt)
     sid = kt.pre(adr_label, tidx)
